@@ -62,7 +62,8 @@ def batches(tier, seed):
     gcases = []
     for i in range(n):
         for _try in range(60):
-            c = dsgcase.gen_sel(rng, max_nodes=10, max_choices=4, cons_prob=1.0, n_incompat=rng.choice([0, 0, 0, 1]))
+            c = (dsgcase.gen_flat_cons(rng) if (i % 5) == 4 else
+                 dsgcase.gen_sel(rng, max_nodes=10, max_choices=4, cons_prob=1.0, n_incompat=rng.choice([0, 0, 0, 1])))
             if c['cons'] and not dsgcase.guards(c):
                 break
         c['kind'] = 'graph'
@@ -72,7 +73,8 @@ def batches(tier, seed):
     pcases = []
     for i in range(n):
         for _try in range(60):
-            c = dsgcase.gen_sel(rng, max_nodes=10, max_choices=4, cons_prob=1.0, n_incompat=rng.choice([0, 0, 0, 1]))
+            c = (dsgcase.gen_flat_cons(rng) if (i % 5) == 4 else
+                 dsgcase.gen_sel(rng, max_nodes=10, max_choices=4, cons_prob=1.0, n_incompat=rng.choice([0, 0, 0, 1])))
             if c['cons'] and not dsgcase.guards(c):
                 break
         c['kind'] = 'proc'
